@@ -6,11 +6,11 @@ from harness.core import MachineryError
 META = {
     "id": "C38",
     "level": "fault_enumeration",
-    "technique": "TLA+ spec FsFault (session = effect sequence, Fault at any step, control flow of __exit__/close) checked by TLC incl. design switch AtomicClose; on the real code every file-system effect of a solve and of an edit session is recorded through sys.addaudithook, validated against the model's close region by TLC, and the session is re-run once per effect (plus per tar member, per computation step, and pairs in the thorough tier) with that point failing; TLC judges every outcome",
+    "technique": "TLA+ spec FsFault (session = effect sequence, Fault at any step, control flow of __exit__/close) checked by TLC incl. design switch AtomicClose; on the real code every file-system effect of a solve and of an edit session is recorded through sys.addaudithook, validated against the model's close region by TLC, and the session is re-run once per effect (plus per tar member, per computation step - failing with an exception and with each of KeyboardInterrupt, SystemExit, GeneratorExit - and pairs in the thorough tier) with that point failing; TLC judges every outcome",
     "text": "Fault enumeration: the set of fault points is every audited file-system effect (open, mkdir, remove, rename, rmdir, rmtree, mkdtemp) the real session issues under its scratch root, every tar member written by the dump and every computation / user-code step; each is failed once in a fresh world and the outcome (raised?, archive absent / byte-identical previous / complete new / partial, retry result) is judged by the TLA+ predicate C38_Intact. TLC also checks the design (all fault positions of the abstract session) and that the recorded effect sequence has the shape of the modelled close region.",
     "note": "Failures are exceptions raised at the fault point (not power loss); parts are synthetic small arrays so that a session takes 50 ms. A failure after the archive has been completely written (e.g. while removing the temporary directory) leaves the complete new archive: accepted as not corrupt/partial.",
     "design_ref": "4.4, 5 C38",
-    "rule": "fault point = (session kind new|edit|copy (edit + deepcopy to a second path), class effect|member|compute, index); every point executed once; thorough: ordered pairs (first fault at every effect, second fault on the retry at 5 sampled effects, then a clean retry); non-trivial = the fault fired",
+    "rule": "fault point = (session kind new|edit|copy (edit + deepcopy to a second path), class effect|member|compute|kbdint|sysexit|genexit, index); every point executed once; thorough: ordered pairs (first fault at every effect, second fault on the retry at 5 sampled effects, then a clean retry); non-trivial = the fault fired",
 }
 
 ATOMIC = "TRUE"  # the close() of the tree under test dumps to a sibling file and renames
@@ -28,6 +28,8 @@ def _run(args):
         r = fsfault.run_session(kind, fail_at=idx)
     elif cls == "member":
         r = fsfault.run_session(kind, tar_member_fail=idx)
+    elif cls in fsfault.INTERRUPTS:
+        r = fsfault.run_session(kind, compute_fail_at=idx, compute_exc=cls)
     else:
         r = fsfault.run_session(kind, compute_fail_at=idx)
     r.update(cls=cls, i=idx)
@@ -42,6 +44,7 @@ def run(chk):
     if r.violated:
         raise MachineryError(f"FsFault design violated: {r.counterexample()[:2000]}")
     chk.tlc("FsFault", "FsFault_FALSE.cfg", workers=4, expect_violation="C38_Intact", label="vacuity guard: unlink-then-dump close")
+    chk.tlc("FsFault", "FsFault_interrupt.cfg", workers=4, expect_violation="C38_Intact", label="vacuity guard: __exit__ closes on an interruption")
     # ---- record the fault-free sessions ----
     recs = []
     plan = []
@@ -55,6 +58,8 @@ def run(chk):
         plan += [(kind, "effect", i) for i in range(1, b["n"] + 1)]
         plan += [(kind, "member", i) for i in range(1, b["members"] + 1)]
         plan += [(kind, "compute", i) for i in range(1, b["computes"] + 1)]
+        # interruptions (BaseException that is not an Exception) at every computation / user-code step
+        plan += [(kind, c, i) for c in sorted(fsfault.INTERRUPTS) for i in range(1, b["computes"] + 1)]
         chk.sample({"kind": kind, "effects": b["n"], "tar_members": b["members"], "compute_steps": b["computes"],
                     "non_tmp_steps": [s for s in b["steps"] if s != "tmp"]})
     if chk.thorough():
@@ -78,7 +83,7 @@ def run(chk):
                      "arc2nd": o["arc2nd"] or "none",
                      "step": base[o["kind"]]["steps"][o["i"] - 1] if o["cls"] in ("effect", "pair") else o["cls"]})
     for kind in ("new", "edit", "copy"):
-        for cls, n in (("effect", base[kind]["n"]), ("member", base[kind]["members"]), ("compute", base[kind]["computes"])):
+        for cls, n in [("effect", base[kind]["n"]), ("member", base[kind]["members"]), ("compute", base[kind]["computes"])] + [(c, base[kind]["computes"]) for c in sorted(fsfault.INTERRUPTS)]:
             recs.append({"ev": "coverage", "kind": kind, "cls": cls, "n": n, "done": sorted(done.get((kind, cls), []))})
     chk.sample(next(x for x in recs if x["ev"] == "outcome" and x.get("step") not in ("tmp",)))
     res = chk.tlc("FsFaultTrace", f"FsFaultTrace_{ATOMIC}.cfg", trace=recs, workers=1, label="outcomes judged by C38 predicates")
